@@ -4,6 +4,8 @@
 (*   MC_Cluster_one.cfg      1 node, 3 writes (quorum of one: Entries and CommittedEntries of one index in ONE Ready) *)
 (*   MC_Cluster_two.cfg      2 nodes, 3 writes, 3 crashes, all interleavings (modulo POR)                            *)
 (*   MC_Cluster_three.cfg    3 nodes, 2 writes, 3 crashes, cycles serialised (Serial); reaches snapshot installation *)
+(*   MC_Cluster_three_quick.cfg  the same with 2 crashes (quick tier)                                                *)
+(*   MC_Cluster_sim.cfg      3 nodes, 3 writes, 3 crashes, NOT serialised: random simulation only (-simulate)        *)
 (* As built - the counterexamples are the LEADS replayed on real clusters by checks/C08.py:                           *)
 (*   MC_Cluster_F1.cfg       strings only: Durability fails (write, snapshot, crash, restart)                        *)
 (*   MC_Cluster_F2.cfg       a list key: SnapshotNeverKills fails                                                    *)
